@@ -101,6 +101,15 @@ def gen_cfg(rng):
     for s in cfg["schemes"]:
         if s in c04.ROUNDS and H.get(s).rounds_cost == "linear" and rng.random() < 0.3 and "rounds" not in cfg["opts"].get(s, {}):
             cfg["opts"].setdefault(s, {})["vary_rounds"] = rng.choice([0.125, 0.333, 0.1, "10%", "12.5%", 0.05, 3, 1 / 3, 0.1234567, "57%", "7%", 0.30000000000000004, 2 / 7])
+    # booleans as real bools and in the documented string spellings (per scheme, for a category, and through the wildcard scheme)
+    for s in cfg["schemes"]:
+        if s in ("bcrypt", "des_crypt") and rng.random() < 0.5:
+            cfg["opts"].setdefault(s, {})["truncate_error"] = rng.choice([True, False, "true", "False", "yes"])
+            if cfg["cats"] and rng.random() < 0.5:
+                cat = rng.choice(list(cfg["cats"]))
+                cfg["cats"][cat].setdefault("opts", {}).setdefault(s, {})["truncate_error"] = rng.choice([True, False])
+    if rng.random() < 0.15:
+        cfg.setdefault("all", {})["truncate_error"] = rng.choice([True, False])
     return cfg
 
 
